@@ -48,7 +48,7 @@ func exec(c *hx.Ctx, line string) string {
 
 func gen(c *hx.Ctx) {
 	// exhaustive: every n <= N, every boundary b in [0,n], every run length e in [0, n-b]
-	N := c.Budget(40, 96)
+	N := c.Budget(40, 150)
 	for n := -1; n <= N; n++ {
 		for b := 0; b <= n || b == 0; b++ {
 			for e := 0; e <= n-b || e == 0; e++ {
@@ -58,7 +58,7 @@ func gen(c *hx.Ctx) {
 		}
 	}
 	// arbitrary (non-monotone) predicates, exhaustive for n <= 4 (quick) / 6 (thorough)
-	M := c.Budget(4, 6)
+	M := c.Budget(4, 7)
 	for n := 1; n <= M; n++ {
 		for lm := uint64(0); lm < 1<<uint(n); lm++ {
 			for em := uint64(0); em < 1<<uint(n); em++ {
@@ -68,7 +68,7 @@ func gen(c *hx.Ctx) {
 		}
 	}
 	// sampled large n up to 2^62 (the midpoint expression must not overflow)
-	K := c.Budget(3000, 60000)
+	K := c.Budget(3000, 200000)
 	for i := 0; i < K; i++ {
 		sh := c.Rng.Range(1, 62)
 		n := int(c.Rng.U64()>>1)%(1<<uint(sh)) + 1
@@ -93,7 +93,7 @@ func gen(c *hx.Ctx) {
 		c.Emit("mono %d %d %d", n, b, e)
 		c.Count("mono_large")
 	}
-	for i := 0; i < c.Budget(500, 5000); i++ {
+	for i := 0; i < c.Budget(500, 20000); i++ {
 		n := c.Rng.Range(5, 62)
 		c.Emit("bits %d %d %d", n, c.Rng.U64()&(1<<uint(n)-1), c.Rng.U64()&(1<<uint(n)-1))
 		c.Count("bits_random")
